@@ -572,6 +572,17 @@ func TestC08(t *testing.T) {
 						}
 					}
 				}
+				if found := !b.IsLiquidated && b.PairID != 0 && cr.chance(50); found { // the collateral asset crashes first (an oracle move of its own)
+					pr, _ := k.GetLendPair(ctx, b.PairID)
+					if tw, ok := a.MarketKeeper.GetTwa(ctx, pr.AssetIn); ok && tw.Twa > 10 {
+						np := tw.Twa * uint64(20+cr.intn(50)) / 100
+						a.MarketKeeper.SetTwa(ctx, markettypes.TimeWeightedAverage{AssetID: pr.AssetIn, ScriptID: 12, Twa: np, CurrentIndex: 0,
+							IsPriceActive: true, PriceValue: []uint64{np}, DiscardedHeightDiff: -1})
+						tr.p("op %d setprice %d %d ok", dt, pr.AssetIn, np)
+						c08Project(f, ctx, tr)
+						dt = 0
+					}
+				}
 				d, dint := c08LiqEnv(f, ctx, b.ID)
 				msg = &liqV2types.MsgLiquidateInternalKeeperRequest{From: us, LiqType: 1, Id: b.ID}
 				line = fmt.Sprintf("handover %d %d %s", b.ID, d, dint)
